@@ -424,3 +424,49 @@ theorem lang_syms (r : Rx L) : ∀ w, Lang m r w → ∀ c ∈ w, ∃ l ∈ leav
     exact ⟨l, by simpa [leaves] using hl, hm⟩
 
 end XsVerif.Rx
+
+/-! ### content-model instance -/
+
+namespace XsVerif.CM
+open XsVerif.Wildcard XsVerif.Rx
+
+mutual
+theorem Particle.leaves_toRx : (p : Particle) → Rx.leaves p.toRx = p.leaves
+  | .leaf l lo hi => by simp [Particle.toRx, Rx.leaves, Particle.leaves]
+  | .group _ .seq lo hi ps => by simp [Particle.toRx, Rx.leaves, Particle.leaves, Particles.leaves_toSeq ps]
+  | .group _ .choice lo hi ps => by simp [Particle.toRx, Rx.leaves, Particle.leaves, Particles.leaves_toChoice ps]
+  | .group _ .all lo hi ps => by simp [Particle.toRx, Rx.leaves, Particle.leaves, Particles.leaves_toAll ps]
+theorem Particles.leaves_toSeq : (ps : Particles) → Rx.leaves ps.toSeq = ps.leaves
+  | .nil => by simp [Particles.toSeq, Rx.leaves, Particles.leaves]
+  | .cons p ps => by
+    simp [Particles.toSeq, Rx.leaves, Particles.leaves, Particle.leaves_toRx p, Particles.leaves_toSeq ps]
+theorem Particles.leaves_toChoice : (ps : Particles) → Rx.leaves ps.toChoice = ps.leaves
+  | .nil => by simp [Particles.toChoice, Rx.leaves, Particles.leaves]
+  | .cons p ps => by
+    simp [Particles.toChoice, Rx.leaves, Particles.leaves, Particle.leaves_toRx p, Particles.leaves_toChoice ps]
+theorem Particles.leaves_toAll : (ps : Particles) → Rx.leaves ps.toAll = ps.leaves
+  | .nil => by simp [Particles.toAll, Rx.leaves, Particles.leaves]
+  | .cons p ps => by
+    simp [Particles.toAll, Rx.leaves, Particles.leaves, Particle.leaves_toRx p, Particles.leaves_toAll ps]
+end
+
+theorem mem_symsOf {sigma : List QN} {p : Particle} {c : ASym} :
+    c ∈ symsOf sigma p ↔ c.1 ∈ sigma ∧ ∃ l ∈ p.leaves, l.matches c.1 = true ∧ l.id = c.2 := by
+  obtain ⟨a, x⟩ := c
+  simp only [symsOf, List.mem_flatMap, List.mem_map, List.mem_filter, Prod.mk.injEq]
+  constructor
+  · rintro ⟨b, hb, l, ⟨hl, hm⟩, rfl, rfl⟩
+    exact ⟨hb, l, hl, hm, rfl⟩
+  · rintro ⟨ha, l, hl, hm, rfl⟩
+    exact ⟨a, ha, l, ⟨hl, hm⟩, rfl, rfl⟩
+
+/-- every word of the attributed language whose names are in Σ is a word over `symsOf Σ p` -/
+theorem lang_over_syms {sigma : List QN} {p : Particle} {w : List ASym}
+    (hl : Lang mm p.toRx w) (hn : ∀ c ∈ w, c.1 ∈ sigma) : Over (symsOf sigma p) w := by
+  intro c hc
+  obtain ⟨l, hlm, hm⟩ := lang_syms mm p.toRx w hl c hc
+  rw [Particle.leaves_toRx] at hlm
+  simp only [mm, Bool.and_eq_true, beq_iff_eq] at hm
+  exact mem_symsOf.mpr ⟨hn c hc, l, hlm, hm.2, hm.1⟩
+
+end XsVerif.CM
